@@ -44,11 +44,12 @@ Record ver := mkVer {
   v_expand_pull : bool;  (* expand_flow adds its cw20 TransferFrom message to the response (was: built, then dropped) *)
   v_close_snap : bool;   (* close_position takes the epoch's global weight snapshot first when it is still missing *)
   v_claim_cur : bool;    (* claim records the address's current weight for the next epoch (was: the last weight its loop saw) *)
-  v_share_cur : bool     (* the share query ignores a first weight entry that only starts next epoch *)
+  v_share_cur : bool;    (* the share query ignores a first weight entry that only starts next epoch *)
+  v_skip_scan : bool     (* claim / rewards query read the weight history also for the epochs before a flow's start *)
 }.
-Definition v_orig : ver := mkVer false false false false false false false false.
-Definition v_c12 : ver := mkVer true true true false true false false false.     (* the four flow repairs only *)
-Definition v_fixed : ver := mkVer true true true true true true true true.
+Definition v_orig : ver := mkVer false false false false false false false false false.
+Definition v_c12 : ver := mkVer true true true false true false false false false.     (* the four flow repairs only *)
+Definition v_fixed : ver := mkVer true true true true true true true true true.
 
 (* ---- weight.rs ------------------------------------------------------------------------------------- *)
 (* Decimal256 arithmetic at scale 10^18; every intermediate stays far below 2^256 for u64 durations and
@@ -439,7 +440,7 @@ Definition reward_of (emission uw g : Z) : outcome Z :=
 Record loopst := mkLoop { l_flow : flow; l_lu : Z; l_lw : Z; l_rewards : list Z; l_log : list (Z * Z * Z) }.
 
 (* claim.rs inner loop over epoch ids [e ..= cur]; `count` = epoch_count before this iteration *)
-Fixpoint claim_epochs (fuel : nat) (e cur count : Z) (exp_amt exp_end : Z) (awh_u snap : list (Z * Z)) (s : loopst)
+Fixpoint claim_epochs (v : ver) (fuel : nat) (e cur count : Z) (exp_amt exp_end : Z) (awh_u snap : list (Z * Z)) (s : loopst)
   : outcome loopst :=
   match fuel with
   | O => Ok s
@@ -448,7 +449,11 @@ Fixpoint claim_epochs (fuel : nat) (e cur count : Z) (exp_amt exp_end : Z) (awh_
       let count' := count + 1 in
       if CLAIM_CAP <? count' then Ok s else
       let f := l_flow s in
-      if e <? f_start f then claim_epochs fuel' (e + 1) cur count' exp_amt exp_end awh_u snap s else
+      if e <? f_start f then
+        (* repaired: the history is read for the skipped epochs too *)
+        claim_epochs v fuel' (e + 1) cur count' exp_amt exp_end awh_u snap
+          (match (if v_skip_scan v then aget e awh_u else None) with
+           | Some w => mkLoop f e w (l_rewards s) (l_log s) | None => s end) else
       if exp_end <=? e then Ok s else
       do em2 <- epoch_emission f (f_emitted f) e;
       let '(emission, emitted) := em2 in
@@ -456,16 +461,16 @@ Fixpoint claim_epochs (fuel : nat) (e cur count : Z) (exp_amt exp_end : Z) (awh_
                 | None => do v <- cadd P128 emission emitted; Ok (set_emitted f (f_emitted f ++ [(e, v)]))
                 | Some _ => Ok f end);
       match weight_lookup awh_u e (l_lu s) (l_lw s) with
-      | None => claim_epochs fuel' (e + 1) cur count' exp_amt exp_end awh_u snap (mkLoop f1 (l_lu s) (l_lw s) (l_rewards s) (l_log s))
+      | None => claim_epochs v fuel' (e + 1) cur count' exp_amt exp_end awh_u snap (mkLoop f1 (l_lu s) (l_lw s) (l_rewards s) (l_log s))
       | Some (uw, lu1, lw1) =>
           let g := aget0 e snap in
-          if g =? 0 then claim_epochs fuel' (e + 1) cur count' exp_amt exp_end awh_u snap (mkLoop f1 lu1 lw1 (l_rewards s) (l_log s))
+          if g =? 0 then claim_epochs v fuel' (e + 1) cur count' exp_amt exp_end awh_u snap (mkLoop f1 lu1 lw1 (l_rewards s) (l_log s))
           else
             do r <- reward_of emission uw g;
             do tot <- cadd P128 r (f_claimed f1);
             do _ <- ensure ((r <=? emission) && (tot <=? exp_amt)) E_OTHER;
-            if r =? 0 then claim_epochs fuel' (e + 1) cur count' exp_amt exp_end awh_u snap (mkLoop f1 lu1 lw1 (l_rewards s) (l_log s))
-            else claim_epochs fuel' (e + 1) cur count' exp_amt exp_end awh_u snap
+            if r =? 0 then claim_epochs v fuel' (e + 1) cur count' exp_amt exp_end awh_u snap (mkLoop f1 lu1 lw1 (l_rewards s) (l_log s))
+            else claim_epochs v fuel' (e + 1) cur count' exp_amt exp_end awh_u snap
                    (mkLoop (set_claimed f1 tot) lu1 lw1 (l_rewards s ++ [r]) (l_log s ++ [(e, r, emission)]))
       end
   end.
@@ -481,24 +486,24 @@ Definition loop_fuel (first cur : Z) : nat := Z.to_nat (cur - first + 1).
 
 (* outer loop of claim over the available flows (those with start_epoch <= current epoch), in storage order.
    Returns the updated flows, the messages, and the last (lu, lw) seen. *)
-Fixpoint claim_flows (fl : list flow) (cur : Z) (last : option Z) (awh_u snap : list (Z * Z)) (user : Z) (lw : Z)
+Fixpoint claim_flows (v : ver) (fl : list flow) (cur : Z) (last : option Z) (awh_u snap : list (Z * Z)) (user : Z) (lw : Z)
   : outcome (list flow * list msg * Z) :=
   match fl with
   | [] => Ok ([], [], lw)
   | f :: r =>
       if cur <? f_start f then
-        do x <- claim_flows r cur last awh_u snap user lw;
+        do x <- claim_flows v r cur last awh_u snap user lw;
         let '(r', ms, lw') := x in Ok (f :: r', ms, lw')
       else
       let '(exp_amt, exp_end) := flow_latest f in
       if (exp_end <? cur) && (f_claimed f =? exp_amt) then
-        do x <- claim_flows r cur last awh_u snap user lw;
+        do x <- claim_flows v r cur last awh_u snap user lw;
         let '(r', ms, lw') := x in Ok (f :: r', ms, lw')
       else
         let '(lu0, lw0) := earliest awh_u in
         do first <- first_claimable last f lu0;
-        do s <- claim_epochs (loop_fuel first cur) first cur 0 exp_amt exp_end awh_u snap (mkLoop f lu0 lw0 [] []);
-        do x <- claim_flows r cur last awh_u snap user (l_lw s);
+        do s <- claim_epochs v (loop_fuel first cur) first cur 0 exp_amt exp_end awh_u snap (mkLoop f lu0 lw0 [] []);
+        do x <- claim_flows v r cur last awh_u snap user (l_lw s);
         let '(r', ms, lw') := x in
         Ok (l_flow s :: r', map (fun a => MSend user (f_asset f) a) (l_rewards s) ++ ms, lw')
   end.
@@ -510,7 +515,7 @@ Definition claim (v : ver) (c : cfg) (st : state) (sender : Z) : outcome (state 
   | Some _ =>
       let last := aget sender (s_last st) in
       do _ <- ensure (match last with Some l => negb (l =? cur) | None => true end) E_OTHER;
-      do x <- claim_flows (s_flows st) cur last (s_awh st sender) (s_snap st) sender 0;
+      do x <- claim_flows v (s_flows st) cur last (s_awh st sender) (s_snap st) sender 0;
       let '(fl, ms, lw) := x in
       do nxt <- padd P64 cur 1;
       Ok (mkState (s_epoch st) (s_bal st) fl (s_counter st) (s_open st) (s_closed st) (s_gw st) (s_aw st) (s_snap st)
@@ -520,13 +525,16 @@ Definition claim (v : ver) (c : cfg) (st : state) (sender : Z) : outcome (state 
 
 (* get_rewards.rs: same loop without the cap, the emitted map is a local copy, the claimed amount is not advanced,
    the total is accumulated with the panicking `+=` *)
-Fixpoint rewards_epochs (fuel : nat) (e cur : Z) (f : flow) (exp_amt exp_end : Z) (awh_u snap : list (Z * Z))
+Fixpoint rewards_epochs (v : ver) (fuel : nat) (e cur : Z) (f : flow) (exp_amt exp_end : Z) (awh_u snap : list (Z * Z))
     (emap : list (Z * Z)) (lu lw total : Z) : outcome Z :=
   match fuel with
   | O => Ok total
   | S fuel' =>
       if cur <? e then Ok total else
-      if e <? f_start f then rewards_epochs fuel' (e + 1) cur f exp_amt exp_end awh_u snap emap lu lw total else
+      if e <? f_start f then
+        (match (if v_skip_scan v then aget e awh_u else None) with
+         | Some w => rewards_epochs v fuel' (e + 1) cur f exp_amt exp_end awh_u snap emap e w total
+         | None => rewards_epochs v fuel' (e + 1) cur f exp_amt exp_end awh_u snap emap lu lw total end) else
       if exp_end <=? e then Ok total else
       do em2 <- epoch_emission f emap e;
       let '(emission, emitted) := em2 in
@@ -534,40 +542,40 @@ Fixpoint rewards_epochs (fuel : nat) (e cur : Z) (f : flow) (exp_amt exp_end : Z
                    | None => do v <- cadd P128 emission emitted; Ok (emap ++ [(e, v)])
                    | Some _ => Ok emap end);
       match weight_lookup awh_u e lu lw with
-      | None => rewards_epochs fuel' (e + 1) cur f exp_amt exp_end awh_u snap emap1 lu lw total
+      | None => rewards_epochs v fuel' (e + 1) cur f exp_amt exp_end awh_u snap emap1 lu lw total
       | Some (uw, lu1, lw1) =>
           let g := aget0 e snap in
-          if g =? 0 then rewards_epochs fuel' (e + 1) cur f exp_amt exp_end awh_u snap emap1 lu1 lw1 total
+          if g =? 0 then rewards_epochs v fuel' (e + 1) cur f exp_amt exp_end awh_u snap emap1 lu1 lw1 total
           else
             do r <- reward_of emission uw g;
             do tot <- cadd P128 r (f_claimed f);
             do _ <- ensure ((r <=? emission) && (tot <=? exp_amt)) E_OTHER;
             do total' <- padd P128 total r;
-            rewards_epochs fuel' (e + 1) cur f exp_amt exp_end awh_u snap emap1 lu1 lw1 total'
+            rewards_epochs v fuel' (e + 1) cur f exp_amt exp_end awh_u snap emap1 lu1 lw1 total'
       end
   end.
 
 (* per available, non-skipped flow: (asset, total) in storage order, zero totals dropped *)
-Fixpoint rewards_flows (fl : list flow) (cur : Z) (last : option Z) (awh_u snap : list (Z * Z)) : outcome (list (Z * Z)) :=
+Fixpoint rewards_flows (v : ver) (fl : list flow) (cur : Z) (last : option Z) (awh_u snap : list (Z * Z)) : outcome (list (Z * Z)) :=
   match fl with
   | [] => Ok []
   | f :: r =>
-      if cur <? f_start f then rewards_flows r cur last awh_u snap else
+      if cur <? f_start f then rewards_flows v r cur last awh_u snap else
       let '(exp_amt, exp_end) := flow_latest f in
-      if (exp_end <? cur) && (f_claimed f =? exp_amt) then rewards_flows r cur last awh_u snap else
+      if (exp_end <? cur) && (f_claimed f =? exp_amt) then rewards_flows v r cur last awh_u snap else
       let '(lu0, lw0) := earliest awh_u in
       do first <- first_claimable last f lu0;
-      do t <- rewards_epochs (loop_fuel first cur) first cur f exp_amt exp_end awh_u snap (f_emitted f) lu0 lw0 0;
-      do rest <- rewards_flows r cur last awh_u snap;
+      do t <- rewards_epochs v (loop_fuel first cur) first cur f exp_amt exp_end awh_u snap (f_emitted f) lu0 lw0 0;
+      do rest <- rewards_flows v r cur last awh_u snap;
       Ok (if 0 <? t then (f_asset f, t) :: rest else rest)
   end.
 
-Definition get_rewards (st : state) (user : Z) : outcome (list (Z * Z)) :=
+Definition get_rewards (v : ver) (st : state) (user : Z) : outcome (list (Z * Z)) :=
   let cur := s_epoch st in
   let last := aget user (s_last st) in
   match last with
-  | Some l => if l =? cur then Ok [] else rewards_flows (s_flows st) cur last (s_awh st user) (s_snap st)
-  | None => rewards_flows (s_flows st) cur last (s_awh st user) (s_snap st)
+  | Some l => if l =? cur then Ok [] else rewards_flows v (s_flows st) cur last (s_awh st user) (s_snap st)
+  | None => rewards_flows v (s_flows st) cur last (s_awh st user) (s_snap st)
   end.
 
 (* ---- queries/get_rewards_share.rs ------------------------------------------------------------------ *)
@@ -595,7 +603,7 @@ Definition rewards_share (v : ver) (st : state) (u : Z) : outcome (Z * Z * Z) :=
 (* ---- close_position.rs ----------------------------------------------------------------------------- *)
 (* repaired: the weight removed is clamped by the address's weight, and the same amount leaves the global weight *)
 Definition close_position (v : ver) (c : cfg) (st : state) (sender : Z) (d now : Z) : outcome (state * list msg) :=
-  do _ <- (match get_rewards st sender with
+  do _ <- (match get_rewards v st sender with
            | Ok (_ :: _) => Err E_OTHER           (* PendingRewards *)
            | _ => Ok tt end);                      (* an error of the rewards query is ignored by the code *)
   match pos_take sender d (s_open st) with
